@@ -371,15 +371,23 @@ def alias_rules(check):
             check.ok("BC-ALIAS", "%d calc_bc functions" % n, "no boundary result is overwritten through its argument list before use, and no boundary function changes a view of the interior state; built-in example: 1 overwritten argument list reported, its fresh-list twin silent")
     if pid == "C01":
         bad = n = 0
-        for f in proj.all_functions():
-            if f.module.short == "modeldisc" and f.name == "add_source":
+        # the add_source each discretisation class runs (own or inherited: a method shared through the
+        # base class serves both), each function analysed once
+        seen_src = []
+        for cn in ("modeldisc.fvm1d", "modeldisc.fvm2dcart"):
+            g = proj.resolve(proj.cls(cn), "add_source") if proj.has_cls(cn) else None
+            if g is not None:
                 n += 1
+                if not any(g is x for x in seen_src):
+                    seen_src.append(g)
+        for f in seen_src:
+            if True:
                 for o, (ln, text, via, kind) in an.summ[f.qualname].mut.items():
                     if o.startswith("X:") and kind == "inplace":
                         bad += 1
                         check.violation("SRC-OWN", f.qualname, "the array returned by a source callable is changed in place (`%s`, line %d): a callable that returns a stored array accumulates the flux balances of earlier evaluations" % (text, ln),
                                         "%s:%d" % (f.module.relpath, ln), key="src-own")
-        check.floor("add_source functions", n, 2)
+        check.floor("discretisation classes with an add_source", n, 2)
         if not bad:
             check.ok("SRC-OWN", "%d add_source functions" % n, "source-callable results are only read")
     if pid == "C20":
